@@ -363,6 +363,14 @@ class _:
     # The far-exponent shortcut (|sexp - texp| > 100, operand tops more than prec+4 bits apart)
     # replaces the small operand by a sticky bit.  Its correctness is the sticky lemma; the
     # verifier does not decide it, so this sub-case is a bounded stand-in (see bounded.py).
+    # Proof sketch that was worked out but not turned into hints (it needs a case split on sbc <= prec / sbc > prec,
+    # on equal / opposite signs with the corner sman == 1, on the three mode families, twice for the mirrored
+    # branch): with u = sman, k = prec+4, off = sexp-texp, the code rounds M' = u*2**k +- 1 at exponent sexp-k, the
+    # spec rounds A = u*2**off +- tman at exponent texp; bitlen(A) - bitlen(M') = off - k, so both have the same rounding
+    # exponent and the same integer R; writing W = 2**|sbc-prec|, for sbc <= prec the rounding boundaries R*P' are
+    # multiples of 2**(sbc+4) which divides u*2**k, hence R = u*W (truncation) or u*W + 1 (away) for both, and for
+    # sbc > prec the boundaries are multiples of W*2**k resp. W*2**off, between which u*2**k +- 1 and u*2**off +- tman
+    # sit in corresponding gaps because 0 < tman < 2**(off-4).
     gaps = [dict(name='far-exponent sticky shortcut', clauses=['value'],
                  cond=lambda s, t, prec: FarApart(s, t, prec), gen='add_gap_inputs')]
 
